@@ -343,4 +343,430 @@ theorem uinv_load (counter : Int) (file : List Unit) (hc : ∀ u ∈ file, u.ref
     exact hc u hu
   fileLt := by intro f _ a ha; cases ha
 
+/-! ### what `add_unit` does to the lists -/
+
+/-- the id `add_unit` gives the new unit: the supplied one, else the next value of the generator -/
+def ridOf (s : State) (r : Option Int) : Int :=
+  match r with
+  | some r => r
+  | none => s.nextId
+
+theorem addUnit_spec (s : State) (a : AddArgs) :
+    (addUnit s a).2 = s.heap.length ∧
+    (addUnit s a).1.heap = s.heap ++ [mkUnit a (ridOf s a.refId)] ∧
+    (addUnit s a).1.lists = upd s.lists a.player (s.lists a.player ++ [s.heap.length]) ∧
+    (addUnit s a).1.fileIds = s.fileIds ∧
+    (addUnit s a).1.handed = (match a.refId with | some _ => s.handed | none => s.handed ++ [s.nextId]) ∧
+    (addUnit s a).1.nextId = (match a.refId with | some _ => s.nextId | none => s.nextId + 1) := by
+  rw [addUnit_eq]
+  cases a.refId <;> simp [ridOf, newId]
+
+theorem addUnit_get (s : State) (a : AddArgs) :
+    (addUnit s a).1.heap[(addUnit s a).2]? = some (mkUnit a (ridOf s a.refId)) := by
+  obtain ⟨h1, h2, _⟩ := addUnit_spec s a
+  rw [h1, h2]
+  exact List.getElem?_concat_length
+
+theorem addUnit_old (s : State) (a : AddArgs) {j : Nat} {u : Unit} (h : s.heap[j]? = some u) :
+    (addUnit s a).1.heap[j]? = some u := by
+  obtain ⟨_, h2, _⟩ := addUnit_spec s a
+  rw [h2, List.getElem?_append_left (lt_of_get h)]
+  exact h
+
+/-! ### removal, exactly -/
+
+theorem removeObj_spec {s s' : State} {i : Nat} (h : UInv s) (hr : removeObj s i = .ok s') :
+    ∃ u, s.heap[i]? = some u ∧ i ∈ s.lists u.player ∧
+      s'.heap = s.heap ∧ s'.nextId = s.nextId ∧ s'.handed = s.handed ∧ s'.fileIds = s.fileIds ∧
+      s'.lists u.player = (s.lists u.player).erase i ∧
+      (s.lists u.player).length = (s'.lists u.player).length + 1 ∧
+      (∀ q, q ≠ u.player → s'.lists q = s.lists q) ∧
+      (∀ q, s'.lists q = (s.lists q).filter (· != i)) := by
+  unfold removeObj at hr
+  split at hr
+  · cases hr
+  · rename_i u hu
+    split at hr
+    · rename_i hmem
+      injection hr with hr
+      subst hr
+      refine ⟨u, hu, hmem, rfl, rfl, rfl, rfl, by simp, ?_, ?_, ?_⟩
+      · simp only [upd_same, List.length_erase_of_mem hmem]
+        have : 0 < (s.lists u.player).length := List.length_pos_of_mem hmem
+        omega
+      · intro q hq
+        simp only [upd_other _ _ _ _ hq]
+      · intro q
+        simp only
+        by_cases hq : q = u.player
+        · subst hq
+          rw [upd_same]
+          exact (h.nodup _).erase_eq_filter i
+        · rw [upd_other _ _ _ _ hq]
+          symm
+          rw [List.filter_eq_self]
+          intro a ha
+          simp only [bne_iff_ne, ne_eq]
+          intro hai
+          subst hai
+          exact hq (h.list_unique ha hmem)
+    · cases hr
+
+/-- `remove_unit(reference_id = r)` when no stored unit carries `r`: nothing happens -/
+theorem removeById_absent {s : State} {r : Int} (hn : ∀ p, ∀ j ∈ s.lists p, hasRef s r j = false) :
+    removeById s r = s := by
+  unfold removeById
+  have : (List.finRange 9).find? (fun p => (s.lists p).any (hasRef s r)) = none := by
+    rw [List.find?_eq_none]
+    intro p _
+    simp only [List.any_eq_true, not_exists, not_and, Bool.not_eq_true]
+    exact hn p
+  rw [this]
+
+/-- `remove_unit(reference_id = r)` when some stored unit carries `r`: the first such unit in owner order, then
+list order, is taken out; every other reference stays where it was -/
+theorem removeById_present {s : State} {r : Int} {p₀ : Player} {j₀ : Nat} (hj : j₀ ∈ s.lists p₀)
+    (hr : hasRef s r j₀ = true) :
+    ∃ (p : Player) (l₁ : List Nat) (i : Nat) (l₂ : List Nat),
+      s.lists p = l₁ ++ i :: l₂ ∧ hasRef s r i = true ∧ (∀ j ∈ l₁, hasRef s r j = false) ∧
+      (∀ q, q < p → ∀ j ∈ s.lists q, hasRef s r j = false) ∧
+      (removeById s r).lists = upd s.lists p (l₁ ++ l₂) ∧
+      (removeById s r).heap = s.heap ∧ (removeById s r).nextId = s.nextId ∧
+      (removeById s r).handed = s.handed ∧ (removeById s r).fileIds = s.fileIds := by
+  unfold removeById
+  cases hf : (List.finRange 9).find? (fun p => (s.lists p).any (hasRef s r)) with
+  | none =>
+    rw [List.find?_eq_none] at hf
+    exact absurd (List.any_eq_true.mpr ⟨j₀, hj, hr⟩) (hf p₀ (List.mem_finRange p₀))
+  | some p =>
+    obtain ⟨hp, as, bs, hsplit, has⟩ := List.find?_eq_some_iff_append.mp hf
+    simp only [List.any_eq_true] at hp
+    obtain ⟨j, hjm, hjr⟩ := hp
+    obtain ⟨i, l₁, l₂, hl₁, hi, hl, he⟩ := List.exists_of_eraseP hjm hjr
+    refine ⟨p, l₁, i, l₂, hl, hi, ?_, ?_, ?_, rfl, rfl, rfl, rfl⟩
+    · intro j hj
+      simpa using hl₁ j hj
+    · intro q hq j hjq
+      have hpw := List.pairwise_lt_finRange 9
+      rw [hsplit, List.pairwise_append] at hpw
+      have hqm : q ∈ as ++ p :: bs := hsplit ▸ List.mem_finRange q
+      rw [List.mem_append, List.mem_cons] at hqm
+      rcases hqm with hqa | hqp | hqb
+      · have := has q hqa
+        simp only [Bool.not_eq_eq_eq_not, Bool.not_true] at this
+        cases hh : hasRef s r j with
+        | false => rfl
+        | true =>
+          have : (s.lists q).any (hasRef s r) = true := List.any_eq_true.mpr ⟨j, hjq, hh⟩
+          simp_all
+      · exact absurd hqp (Fin.ne_of_lt hq)
+      · have := (List.pairwise_cons.mp hpw.2.1).1 q hqb
+        exact absurd hq (Fin.lt_asymm this)
+    · simp only
+      rw [he]
+
+/-! ### how the generator state evolves -/
+
+/-- ids handed out by an operation are at least the old counter; the counter never decreases -/
+def Grows (s s' : State) : Prop :=
+  s.nextId ≤ s'.nextId ∧ s'.fileIds = s.fileIds ∧ ∀ a ∈ s'.handed, a ∈ s.handed ∨ s.nextId ≤ a
+
+theorem Grows.refl (s : State) : Grows s s := ⟨Int.le_refl _, rfl, fun _ h => Or.inl h⟩
+
+theorem Grows.trans {a b c : State} (h1 : Grows a b) (h2 : Grows b c) : Grows a c := by
+  refine ⟨Int.le_trans h1.1 h2.1, h2.2.1.trans h1.2.1, ?_⟩
+  intro x hx
+  rcases h2.2.2 x hx with h | h
+  · exact h1.2.2 x h
+  · exact Or.inr (Int.le_trans h1.1 h)
+
+theorem grows_of_eq {s s' : State} (hn : s'.nextId = s.nextId) (hh : s'.handed = s.handed)
+    (hf : s'.fileIds = s.fileIds) : Grows s s' :=
+  ⟨by rw [hn]; exact Int.le_refl _, hf, fun a ha => Or.inl (hh ▸ ha)⟩
+
+theorem grows_addUnit (s : State) (a : AddArgs) : Grows s (addUnit s a).1 := by
+  obtain ⟨_, _, _, hf, hh, hn⟩ := addUnit_spec s a
+  refine ⟨?_, hf, ?_⟩
+  · rw [hn]; cases a.refId <;> simp <;> omega
+  · intro x hx
+    rw [hh] at hx
+    cases hr : a.refId with
+    | some r => rw [hr] at hx; exact Or.inl hx
+    | none =>
+      rw [hr] at hx
+      simp only [List.mem_append, List.mem_singleton] at hx
+      rcases hx with hx | hx
+      · exact Or.inl hx
+      · exact Or.inr (by omega)
+
+theorem grows_setPlayer {s s' : State} {i : Nat} {p : Player} (hs : setPlayer s i p = .ok s') : Grows s s' := by
+  unfold setPlayer at hs
+  split at hs
+  · cases hs
+  · split at hs
+    · injection hs with hs; subst hs; exact grows_of_eq rfl rfl rfl
+    · cases hs
+
+theorem grows_chownList {p : Player} (is : List Nat) : ∀ (s : State), Grows s (chownList s is p).1 := by
+  induction is with
+  | nil => intro s; exact Grows.refl s
+  | cons i rest ih =>
+    intro s
+    unfold chownList
+    cases hs : setPlayer s i p with
+    | error e => exact Grows.refl s
+    | ok s' => exact (grows_setPlayer hs).trans (ih s')
+
+theorem grows_removeById (s : State) (r : Int) : Grows s (removeById s r) := by
+  unfold removeById
+  split
+  · exact Grows.refl s
+  · exact grows_of_eq rfl rfl rfl
+
+theorem grows_removeObj {s s' : State} {i : Nat} (hr : removeObj s i = .ok s') : Grows s s' := by
+  unfold removeObj at hr
+  split at hr
+  · cases hr
+  · split at hr
+    · injection hr with hr; subst hr; exact grows_of_eq rfl rfl rfl
+    · cases hr
+
+theorem grows_step (cfg : Cfg) (s : State) (op : Op) : Grows s (step cfg s op) := by
+  cases op with
+  | add a => exact grows_addUnit s a
+  | clone src c =>
+    simp only [step]
+    cases hc : cloneUnit cfg s src c with
+    | error e => exact Grows.refl s
+    | ok r =>
+      unfold cloneUnit at hc
+      split at hc
+      · cases hc
+      · split at hc
+        · cases hc
+        · injection hc with hc
+          subst hc
+          exact grows_addUnit s _
+  | remove rid obj =>
+    simp only [step]
+    cases hr : removeUnit s rid obj with
+    | error e => exact Grows.refl s
+    | ok s' =>
+      unfold removeUnit at hr
+      split at hr
+      · cases hr
+      · cases hr
+      · injection hr with hr; subst hr; exact grows_removeById s _
+      · exact grows_removeObj hr
+  | setPlayer i p =>
+    simp only [step]
+    cases hs : setPlayer s i p with
+    | error e => exact Grows.refl s
+    | ok s' => exact grows_setPlayer hs
+  | chown is p => exact grows_chownList is s
+  | newId =>
+    refine ⟨by simp [step, newId]; omega, rfl, ?_⟩
+    intro a ha
+    simp only [step, newId, List.mem_append, List.mem_singleton] at ha
+    rcases ha with ha | ha
+    · exact Or.inl ha
+    · exact Or.inr (by omega)
+  | save =>
+    exact ⟨by simp [step, saveCounter]; omega, rfl, fun a ha => Or.inl ha⟩
+
+theorem grows_run (cfg : Cfg) (ops : List Op) : ∀ (s : State), Grows s (run cfg s ops) := by
+  induction ops with
+  | nil => intro s; exact Grows.refl s
+  | cons op rest ih => intro s; exact (grows_step cfg s op).trans (ih _)
+
+/-! ### reference ids of all objects unique (holds as long as no explicit reference id is supplied) -/
+
+def refs (s : State) : List Int := s.heap.map (·.refId)
+
+/-- every object ever created has its own reference id, all below the counter -/
+structure IdInv (s : State) : Prop where
+  nodup : (refs s).Nodup
+  lt : ∀ r ∈ refs s, r < s.nextId
+
+/-- the operation supplies no explicit `reference_id` -/
+def Op.auto : Op → Bool
+  | .add a => a.refId.isNone
+  | .clone _ c => c.refId.isNone
+  | _ => true
+
+theorem set_same {l : List Unit} {i : Nat} {u : Unit} (h : l[i]? = some u) (p : Player) :
+    (l.set i { u with player := p }).map (·.refId) = l.map (·.refId) := by
+  apply List.ext_getElem?
+  intro j
+  by_cases hj : i = j
+  · subst hj
+    rw [List.map_set, List.getElem?_set_self (by simpa using lt_of_get h)]
+    simp [h]
+  · simp [List.getElem?_map, List.getElem?_set_ne hj]
+
+theorem idinv_of_eq {s s' : State} (h : IdInv s) (hr : refs s' = refs s) (hn : s.nextId ≤ s'.nextId) :
+    IdInv s' :=
+  ⟨hr ▸ h.nodup, fun r hm => Int.lt_of_lt_of_le (h.lt r (hr ▸ hm)) hn⟩
+
+theorem idinv_addAuto {s : State} (h : IdInv s) (a : AddArgs) (ha : a.refId = none) :
+    IdInv (addUnit s a).1 := by
+  obtain ⟨_, h2, _, _, _, hn⟩ := addUnit_spec s a
+  rw [ha] at hn
+  dsimp only at hn
+  have hrefs : refs (addUnit s a).1 = refs s ++ [s.nextId] := by
+    simp [refs, h2, ha, ridOf, mkUnit]
+  constructor
+  · rw [hrefs, List.nodup_append]
+    refine ⟨h.nodup, by simp, ?_⟩
+    intro x hx y hy
+    simp only [List.mem_singleton] at hy
+    subst hy
+    exact Int.ne_of_lt (h.lt x hx)
+  · intro r hr
+    rw [hrefs] at hr
+    simp only [List.mem_append, List.mem_singleton] at hr
+    rw [hn]
+    rcases hr with hr | hr
+    · have := h.lt r hr; omega
+    · omega
+
+theorem idinv_setPlayer {s s' : State} {i : Nat} {p : Player} (h : IdInv s) (hs : setPlayer s i p = .ok s') :
+    IdInv s' := by
+  unfold setPlayer at hs
+  split at hs
+  · cases hs
+  · rename_i u hu
+    split at hs
+    · injection hs with hs
+      subst hs
+      exact idinv_of_eq h (set_same hu p) (Int.le_refl _)
+    · cases hs
+
+theorem idinv_chownList {p : Player} (is : List Nat) : ∀ {s : State}, IdInv s → IdInv (chownList s is p).1 := by
+  induction is with
+  | nil => intro s h; exact h
+  | cons i rest ih =>
+    intro s h
+    unfold chownList
+    cases hs : setPlayer s i p with
+    | error e => exact h
+    | ok s' => exact ih (idinv_setPlayer h hs)
+
+theorem idinv_removeById {s : State} (h : IdInv s) (r : Int) : IdInv (removeById s r) := by
+  unfold removeById
+  split
+  · exact h
+  · exact idinv_of_eq h rfl (Int.le_refl _)
+
+theorem idinv_removeObj {s s' : State} {i : Nat} (h : IdInv s) (hr : removeObj s i = .ok s') : IdInv s' := by
+  unfold removeObj at hr
+  split at hr
+  · cases hr
+  · split at hr
+    · injection hr with hr; subst hr; exact idinv_of_eq h rfl (Int.le_refl _)
+    · cases hr
+
+theorem idinv_step (cfg : Cfg) {s : State} (h : IdInv s) (op : Op) (ha : op.auto = true) :
+    IdInv (step cfg s op) := by
+  cases op with
+  | add a =>
+    simp only [Op.auto, Option.isNone_iff_eq_none] at ha
+    exact idinv_addAuto h a ha
+  | clone src c =>
+    simp only [Op.auto, Option.isNone_iff_eq_none] at ha
+    simp only [step]
+    cases hc : cloneUnit cfg s src c with
+    | error e => exact h
+    | ok r =>
+      unfold cloneUnit at hc
+      split at hc
+      · cases hc
+      · split at hc
+        · cases hc
+        · injection hc with hc
+          subst hc
+          exact idinv_addAuto h _ ha
+  | remove rid obj =>
+    simp only [step]
+    cases hr : removeUnit s rid obj with
+    | error e => exact h
+    | ok s' =>
+      unfold removeUnit at hr
+      split at hr
+      · cases hr
+      · cases hr
+      · injection hr with hr
+        subst hr
+        exact idinv_removeById h _
+      · exact idinv_removeObj h hr
+  | setPlayer i p =>
+    simp only [step]
+    cases hs : setPlayer s i p with
+    | error e => exact h
+    | ok s' => exact idinv_setPlayer h hs
+  | chown is p => exact idinv_chownList is h
+  | newId => exact idinv_of_eq h rfl (by simp [step, newId]; omega)
+  | save => exact idinv_of_eq h rfl (by simp [step, saveCounter]; omega)
+
+theorem idinv_run (cfg : Cfg) (ops : List Op) :
+    ∀ {s : State}, IdInv s → (∀ op ∈ ops, op.auto = true) → IdInv (run cfg s ops) := by
+  induction ops with
+  | nil => intro s h _; exact h
+  | cons op rest ih =>
+    intro s h ha
+    exact ih (idinv_step cfg h op (ha op (List.mem_cons_self))) (fun o ho => ha o (List.mem_cons_of_mem _ ho))
+
+theorem idinv_load (counter : Int) (file : List Unit) (hn : (file.map (·.refId)).Nodup)
+    (hc : ∀ u ∈ file, u.refId < counter) : IdInv (load counter file) := by
+  refine ⟨hn, ?_⟩
+  intro r hr
+  simp only [refs, load, List.mem_map] at hr
+  obtain ⟨u, hu, rfl⟩ := hr
+  exact hc u hu
+
+/-- two objects with the same reference id are the same object -/
+theorem IdInv.same {s : State} (h : IdInv s) {i j : Nat} {u v : Unit} (hu : s.heap[i]? = some u)
+    (hv : s.heap[j]? = some v) (he : u.refId = v.refId) : i = j := by
+  have hi : i < (refs s).length := by simp [refs]; exact lt_of_get hu
+  apply (List.getElem?_inj hi h.nodup).mp
+  simp [refs, List.getElem?_map, hu, hv, he]
+
+/-- with unique ids, `remove_unit(reference_id = id of unit i)` takes out exactly the stored unit `i` -/
+theorem removeById_designated {s : State} (h : UInv s) (hid : IdInv s) {p : Player} {i : Nat} {u : Unit}
+    (hi : i ∈ s.lists p) (hu : s.heap[i]? = some u) :
+    ∀ q, (removeById s u.refId).lists q = (s.lists q).filter (· != i) := by
+  have hr : hasRef s u.refId i = true := by simp [hasRef, hu]
+  obtain ⟨p', l₁, i', l₂, hl, hi', _, _, hlists, _⟩ := removeById_present hi hr
+  have hii : i' = i := by
+    unfold hasRef at hi'
+    split at hi'
+    · rename_i v hv
+      exact hid.same hv hu (by simpa using hi')
+    · cases hi'
+  subst hii
+  have hmem : i' ∈ s.lists p' := by rw [hl]; simp
+  have hpp : p = p' := h.list_unique hi hmem
+  subst hpp
+  intro q
+  rw [hlists]
+  by_cases hq : q = p
+  · subst hq
+    rw [upd_same]
+    have hnd := h.nodup q
+    rw [hl] at hnd ⊢
+    rw [← hnd.erase_eq_filter i']
+    have hni : i' ∉ l₁ := by
+      intro hm
+      have := (List.nodup_append.mp hnd).2.2 i' hm i' (by simp)
+      exact this rfl
+    rw [List.erase_append_right _ hni, List.erase_cons_head]
+  · rw [upd_other _ _ _ _ hq]
+    symm
+    rw [List.filter_eq_self]
+    intro a ha
+    simp only [bne_iff_ne, ne_eq]
+    intro hai
+    subst hai
+    exact hq (h.list_unique ha hmem)
+
 end Aoe.Units
